@@ -5,7 +5,7 @@ B22 == << {1, 2}, {1, 2} >>
 B23 == << {1, 2, 3}, {1, 2, 3} >>
 B1x4 == << {1, 2, 3, 4} >>
 B212 == << {1, 2}, {1}, {2} >>
-FairSpec == Spec /\ WF_vars(client) /\ (\A s \in Shards : WF_vars(worker(WorkerId(s)))) /\ (\A v \in Voters : WF_vars(voter(VoterId(v))))
+FairSpec == Spec /\ WF_vars(client) /\ WF_vars(getter) /\ (\A s \in Shards : WF_vars(worker(WorkerId(s)))) /\ (\A v \in Voters : WF_vars(voter(VoterId(v))))
 Termination2 == <>(\A self \in ProcSet : pc[self] = "Done")
 (* predict never touches epochs or queues while a voter still works on an earlier batch *)
 NoOverlap == pc[<<"c", 0>>] \in {"p_epoch", "p_enq", "p_enq_do", "p_drain", "p_disp"} =>
